@@ -6,20 +6,36 @@ from tools.harness.common import DIALECTS
 ID = 'C18'
 TARGETS = ['MindsVerif.Props.C18']
 THEOREMS = ['MindsVerif.Props.C18.' + n for n in (
-    'C18_copy_generic', 'C18_copy_partial', 'C18_copy_fixed', 'C18_copy_live',
-    'C18_copy_iso', 'C18_copy_iso_generic', 'C18_copy_iso_live', 'C18_witness_6', 'phi18_ident_shape', 'C18_iso_sound', 'C18_witness_1', 'C18_witness_1a', 'C18_witness_1b', 'phi18', 'phi18_paren', 'phi18_ident_attrs',
-    'pin_custom_copy', 'pin_eq_defs', 'pin_plan_variant',
-    'C18_ast_eq', 'C18_step_eq_refl', 'C18_step_eq_symm_partial', 'C18_witness_4', 'C18_witness_2',
-    'C18_plan_eq_fixed', 'C18_witness_3', 'C18_result_eq', 'C18_col_eq', 'C18_witness_5', 'C18_list_eq', 'C18_plan_eq_list', 'C18_witness_8', 'phi18_plan_rows', 'phi18_step_rows', 'C18_witness_7', 'C18_single_line_refines', 'pin_single_line')]
+    # the full statement and its parts
+    'C18', 'C18_review_full_live', 'C18_copy_print_stable', 'C18_structural_local', 'C18_unfold_local',
+    'C18_copy_generic', 'C18_copy_fixed', 'C18_copy_live', 'C18_copy_iso', 'C18_copy_iso_generic', 'C18_copy_iso_live',
+    'C18_iso_sound', 'C18_witness_6',
+    # remarks: the unrestricted formulation is false
+    'C18_copy_full_fixed_false', 'C18_full_unrestricted_false',
+    # Tie B obligations and pins
+    'phi18', 'phi18_paren', 'phi18_ident_attrs', 'phi18_ident_shape', 'pin_custom_copy', 'pin_eq_defs', 'pin_plan_variant',
+    'pin_single_line', 'phi18_plan_rows', 'phi18_step_rows',
+    # equality
+    'C18_ast_eq', 'C18_single_line_refines', 'C18_step_eq_refl', 'C18_step_eq_symm_partial', 'C18_witness_4',
+    'C18_list_eq', 'C18_plan_eq_list', 'C18_plan_eq_fixed', 'C18_witness_8', 'C18_result_eq', 'C18_col_eq', 'C18_witness_5',
+    # regression theorems about the former code (repaired; the findings are fixed)
+    'C18_copy_partial', 'C18_old_hook_witness_1', 'C18_old_hook_witness_1a', 'C18_old_hook_witness_1b',
+    'C18_old_plan_eq_witness_2', 'C18_old_hash_witness_3', 'C18_old_single_line_witness_7')]
 ASSUME = [
     'Python object model as in Model/Heap.lean: an object is its vars() in order, lists/dicts are cells, '
     'str/int/float/bool/None/type are atoms; copy.deepcopy of CPython 3.12 Lib/copy.py and Identifier.__deepcopy__ are '
-    'hand-transcribed (tie: copy correspondence stream of this run, real parser trees + synthetic graphs with sharing and cycles)',
-    'which Identifier hook / QueryPlan.__eq__ / Result.__hash__ variant the tree has is decided by behaviour probing (tools/extract/x_copy.py)',
-    'T18.1 (separation, frame, and C18_copy_iso: equal unfoldings of original and copy) is proved for all heaps of the model; '
+    'hand-transcribed (tie: copy correspondence stream of this run, real parser trees + synthetic graphs with sharing and cycles); '
+    'a tuple with mutable content is modelled like a list (memoised before its items; CPython memoises a tuple after them — only '
+    'observable for a tuple inside a cycle, which no tree contains)',
+    'which Identifier hook / QueryPlan.__eq__ / Result.__hash__ / to_single_line variant the tree has is decided by behaviour probing '
+    '(tools/extract/x_copy.py); C18_full requires the repaired variants, the former ones are regression models (C18_old_*)',
+    'C18_full (theorem C18) holds for heaps with parenAtomicB (Identifier.parentheses holds an immutable value: it is passed by reference) '
+    'and identShapeB (standard Identifier attribute list); both are checked on the probed rows and on every tree of the run',
     'that str / to_tree of the real classes are functions of the unfolding (no id(), no global state) is assumed and probed '
-    '(copy == orig, same str, same to_tree on the real objects); hypothesis identShapeB is checked on every tree of the run',
-    'the __eq__ methods are transcribed literally; == on attribute values is abstract (veq); str / to_tree are abstract deterministic functions',
+    '(copy == orig, same str, same to_tree on the real objects); termination of deepcopy is not proved (fuel; exhaustion is never a successful copy)',
+    'the __eq__ methods are transcribed literally; == on attribute values is abstract (veq: reflexivity / symmetry of the components are '
+    'hypotheses of the step laws — a bare NaN attribute is outside them); str / to_tree are abstract deterministic functions; '
+    'Result.__hash__ is tied by the hash stream with the tuple hash of (\'Result\', n) as oracle value',
 ]
 
 CATALOG = dict(
@@ -951,17 +967,20 @@ def run(chk):
     for n in list(range(0, 6)) + [prng.randrange(1000) for _ in range(10)]:
         add_failures(probe_result(n))
         chk.count(('result', n))
-        if not sd['hash_ok']:
-            from mindsdb_sql.planner.step_result import Result
-            try:
-                hash(Result(n))
-                got = 'ok'
-            except TypeError:
-                got = 'TypeError'
-            except Exception as e:
-                got = type(e).__name__
-            lines.append('hash %d' % n)
-            expect.append(('hash', dict(n=n), got))
+        # the `hash` stream ties the variant the tree has: repaired = resultHashFixed with the tuple hash of
+        # ('Result', n) as oracle value (so the real method must be exactly that hash); former = resultHash (TypeError)
+        from mindsdb_sql.planner.step_result import Result
+        try:
+            got = 'ok %d' % hash(Result(n))
+        except TypeError:
+            got = 'TypeError'
+        except Exception as e:
+            got = type(e).__name__
+        if sd['hash_ok']:
+            lines.append('hash fixed %d %d' % (n, hash(('Result', n))))
+        else:
+            lines.append('hash pinned %d' % n)
+        expect.append(('hash', dict(n=n), got))
     # ---- to_single_line: model (variant probed by the extractor) vs the real function
     sl_texts = [str(t) for m_, t in trees[:150]]
     sl_alpha = [' ', ' ', '\n', '\t', 'a', 'b', "'", '"', '`', '\\', 'x', '.', '(']
@@ -1001,10 +1020,12 @@ def run(chk):
         chk.oblige('corr:heap', 'correspondence', False, 'driver failed: %s' % e)
     for (kind, meta, want), line in list(zip(expect, lines))[:2]:
         chk.samples.append(dict(kind=kind, meta=meta, line=line[:300], result=want[:300]))
-    chk.samples.append(dict(theorem='C18_copy_generic : ∀ h0 v, wfB h0 → v.okB h0.length → ∀ fuel h\' v\', deepcopy .off fuel h0 v = some (h\', v\') → '
-                                    '(∀ a < h0.length, h\'[a]? = h0[a]?) ∧ (∀ b, Reach h\' v\' b → ¬ Reach h\' v b) ∧ '
-                                    '(∀ F local, ∀ mutations ms of cells ≥ h0.length, F (mutateAll h\' ms) v = F h0 v) ∧ …'))
-    chk.samples.append(dict(theorem='C18_witness_2 : ∀ st a b, planEq seq false st a b ≠ .true  (QueryPlan.__eq__ never returns True)'))
+    chk.samples.append(dict(theorem='C18 : C18_full := (∀ h0 v, wfB h0 → v.okB h0.length → parenAtomicB h0 → CopyBody identHook h0 v) ∧ '
+                                    '(∀ h0 v, wfB h0 → v.okB h0.length → identShapeB h0 → CopyIso identHook h0 v) ∧ planEqOnEqual = .true ∧ resultHashOk = true'))
+    chk.samples.append(dict(theorem='CopyBody hook h0 v := ∀ fuel h\' v\', deepcopy hook fuel h0 v = some (h\', v\') → (∀ a < h0.length, h\'[a]? = h0[a]?) ∧ '
+                                    '(∀ b, Reach h\' v\' b → ¬ Reach h\' v b) ∧ (∀ F Local, ∀ mutations ms of cells ≥ h0.length, F (mutateAll h\' ms) v = F h0 v) ∧ …;  '
+                                    'CopyIso hook h0 v := … → (∀ n, unfold n h0 v = unfold n h\' v\') ∧ ∀ F Structural, F h0 v = F h\' v\''))
+    chk.samples.append(dict(theorem='C18_plan_eq_list : planEq seq true st a b = .true ↔ st = true ∧ eqList seq a b = true;  ext ≠ [] → planEq … a (a ++ ext) ≠ .true'))
     return chk.finish(assumptions=ASSUME, extra=dict(probed=sd, trees=n_trees, mutations=n_muts))
 
 
